@@ -257,7 +257,7 @@ def check_affected(R, gc, bb, l, kind='corpus'):
     ctx, g = R.ctx, gc.grid
     exact = gc.kind == 'exact'
     r = gc.res[l]
-    st, res = call(g.get_affected_level_tiles, bb, l)
+    st, res = call(lambda: (lambda t: (t[0], t[1], list(t[2])))(g.get_affected_level_tiles(bb, l)))
     delta = r / 10
     pos = [gc.tile_pos(frac(bb[0]) + delta, frac(bb[1]) + delta, l), gc.tile_pos(frac(bb[2]) - delta, frac(bb[3]) - delta, l)]
     near = any(near_integer(p) for pp in pos for p in pp)
